@@ -104,10 +104,16 @@ pub fn bind_next(
                         return new_loc_err(Error::OutOfListBounds{index: n});
                     }
 
-                    let lhs_val = &mut lock_deref!(items)[n as usize];
+                    // We compute the new value on a copy of the slot and
+                    // store it afterwards, so that the list isn't locked
+                    // while the operation is applied (the right-hand side
+                    // may be this same list, as in `xs[0] += xs`).
+                    let mut lhs_val = lock_deref!(items)[n as usize].clone();
 
-                    binary_operation_assign(lhs_val, rhs, op)
+                    binary_operation_assign(&mut lhs_val, rhs, op)
                         .context(BinOpAssignListIndexFailed)?;
+
+                    lock_deref!(items)[n as usize] = lhs_val;
 
                     Ok(())
                 },
